@@ -39,6 +39,13 @@ fn load(fmt: Fmt, bytes: &[u8]) -> Result<Buffer, String> {
     Buffer::from_bytes(&PathBuf::from(format!("c05.{}", fmt.ext())), false, bytes).map_err(|e| e.to_string())
 }
 
+/// debugging aid for hand replays: C05_DUMP=<dir> writes the files a case produces
+fn dump(name: &str, bytes: &[u8]) {
+    if let Ok(d) = std::env::var("C05_DUMP") {
+        let _ = std::fs::write(PathBuf::from(d).join(name), bytes);
+    }
+}
+
 fn hclass(h: u16) -> &'static str {
     if h < 25 {
         "h<25"
@@ -83,13 +90,15 @@ fn glyph_table(buf: &Buffer, page: usize) -> Option<(i32, i32, Vec<Option<Vec<u8
 struct Diff {
     field: &'static str,
     msg: String,
+    /// row-major index of the differing cell (None for width / height)
+    cell: Option<usize>,
 }
 
 /// Do `a` and `b` show the same picture? Order: width, then the cells of the common rows (first differing cell,
 /// fields in the order char, fg, bg, blink, glyph), then height. `fonts`: also compare the glyphs the cells are drawn with.
 fn same_picture(a: &Buffer, b: &Buffer, fonts: bool) -> Option<Diff> {
     if a.get_width() != b.get_width() {
-        return Some(Diff { field: "width", msg: format!("width {} -> {}", a.get_width(), b.get_width()) });
+        return Some(Diff { field: "width", msg: format!("width {} -> {}", a.get_width(), b.get_width()), cell: None });
     }
     let rows = a.get_height().min(b.get_height());
     // font pages are compared through the glyph tables they select: (page in a, page in b) -> equal?
@@ -98,17 +107,18 @@ fn same_picture(a: &Buffer, b: &Buffer, fonts: bool) -> Option<Diff> {
         for x in 0..a.get_width() {
             let (p, q) = (shown(a, x, y), shown(b, x, y));
             let at = |f: &str, l: String, r: String| format!("cell ({x},{y}) {f}: {l} -> {r}; first {p:?} second {q:?}");
+            let cell = Some((y * a.get_width() + x) as usize);
             if p.ch != q.ch {
-                return Some(Diff { field: "char", msg: at("char", format!("{:#04x}", p.ch), format!("{:#04x}", q.ch)) });
+                return Some(Diff { field: "char", msg: at("char", format!("{:#04x}", p.ch), format!("{:#04x}", q.ch)), cell });
             }
             if p.fg != q.fg {
-                return Some(Diff { field: "fg", msg: at("foreground", format!("{:?}", p.fg), format!("{:?}", q.fg)) });
+                return Some(Diff { field: "fg", msg: at("foreground", format!("{:?}", p.fg), format!("{:?}", q.fg)), cell });
             }
             if p.bg != q.bg {
-                return Some(Diff { field: "bg", msg: at("background", format!("{:?}", p.bg), format!("{:?}", q.bg)) });
+                return Some(Diff { field: "bg", msg: at("background", format!("{:?}", p.bg), format!("{:?}", q.bg)), cell });
             }
             if p.blink != q.blink {
-                return Some(Diff { field: "blink", msg: at("blink", p.blink.to_string(), q.blink.to_string()) });
+                return Some(Diff { field: "blink", msg: at("blink", p.blink.to_string(), q.blink.to_string()), cell });
             }
             if fonts {
                 let eq = match page_pairs.iter().find(|e| e.0 == p.page && e.1 == q.page) {
@@ -127,13 +137,13 @@ fn same_picture(a: &Buffer, b: &Buffer, fonts: bool) -> Option<Diff> {
                         (Some(x), Some(y)) if (x.0, x.1) != (y.0, y.1) => format!("font size {}x{} -> {}x{}", x.0, x.1, y.0, y.1),
                         _ => "glyph bitmaps differ".to_string(),
                     };
-                    return Some(Diff { field: "glyph", msg: at("font page", p.page.to_string(), format!("{} ({what})", q.page)) });
+                    return Some(Diff { field: "glyph", msg: at("font page", p.page.to_string(), format!("{} ({what})", q.page)), cell });
                 }
             }
         }
     }
     if a.get_height() != b.get_height() {
-        return Some(Diff { field: "height", msg: format!("height {} -> {}", a.get_height(), b.get_height()) });
+        return Some(Diff { field: "height", msg: format!("height {} -> {}", a.get_height(), b.get_height()), cell: None });
     }
     None
 }
@@ -255,13 +265,14 @@ fn compare_tnd(m: &Model, cells: &[Cell], d: &refdec::RgbPic) -> Result<(), (Str
                         // the cell after a character 1..=6: its colour commands are relative to a state the file never set
                         "color_after_ctrl_char"
                     } else if g.fg != want.fg {
-                        if i == 0 || (0..i).all(|k| pal[cells[k].fg as usize] == pal[cells[0].fg as usize]) {
-                            "fg|before_first_fg_command"
+                        // the writer emits no foreground command while the colour equals palette entry 0
+                        if pal[0] != [0, 0, 0] && (0..=i).all(|k| pal[cells[k].fg as usize] == pal[0]) {
+                            "initial_colour|palette0_not_black"
                         } else {
                             "fg"
                         }
-                    } else if i == 0 || (0..i).all(|k| pal[cells[k].bg as usize] == pal[cells[0].bg as usize]) {
-                        "bg|before_first_bg_command"
+                    } else if pal[0] != [0, 0, 0] && (0..=i).all(|k| pal[cells[k].bg as usize] == pal[0]) {
+                        "initial_colour|palette0_not_black"
                     } else {
                         "bg"
                     };
@@ -277,8 +288,18 @@ fn compare_tnd(m: &Model, cells: &[Cell], d: &refdec::RgbPic) -> Result<(), (Str
     Ok(())
 }
 
+/// a cell (character 1, attribute 0) — the IDF run marker — that has no equal neighbour in its row
+fn lone_marker(w: usize, n: usize, is_marker: impl Fn(usize) -> bool) -> bool {
+    (0..n).any(|i| is_marker(i) && (i % w == 0 || !is_marker(i - 1)) && (i % w == w - 1 || i + 1 >= n || !is_marker(i + 1)))
+}
+
 fn refdecode(m: &Model, cells: &[Cell], bytes: &[u8]) -> Result<(), (String, String)> {
     let dec_err = |(c, msg): refdec::DecErr| (format!("malformed|{c}"), format!("the saved file violates the format description: {c}: {msg}"));
+    if m.fmt == Fmt::Idf && m.compress && lone_marker(m.w as usize, cells.len(), |i| cells[i].ch == 1 && cells[i].fg == 0 && cells[i].bg == 0) {
+        // one input class, many symptoms (the stream loses sync): fold them into one key
+        let r = refdec::decode_idf(bytes).map_err(dec_err).and_then(|d| compare_idx(m, cells, &d));
+        return r.map_err(|(k, msg)| ("compress+lone_marker_cell".to_string(), format!("[{k}] {msg}")));
+    }
     match m.fmt {
         Fmt::Xb => compare_idx(m, cells, &refdec::decode_xb(bytes).map_err(dec_err)?),
         Fmt::Bin => compare_idx(m, cells, &refdec::decode_bin(bytes).map_err(dec_err)?),
@@ -290,12 +311,15 @@ fn refdecode(m: &Model, cells: &[Cell], bytes: &[u8]) -> Result<(), (String, Str
 
 // ------------------------------------------------------------------------------------------------ clause (1): save -> load
 
-fn roundtrip(m: &Model, orig: &Buffer, a: &Buffer) -> Result<(), (String, String)> {
+fn roundtrip(m: &Model, cells: &[Cell], orig: &Buffer, a: &Buffer) -> Result<(), (String, String)> {
     let f = m.fmt.ext();
     if let Some(d) = same_picture(orig, a, m.fmt.embeds_font()) {
+        let pal = m.palette8();
         let class = match d.field {
             "height" if m.h < 25 && a.get_height() == 25 => "|saved<25_loaded_25",
             "width" if m.w > 1000 => "|w>1000",
+            // Tundra: no foreground command has been written yet (all cells so far are black on the writer's side)
+            "fg" if m.fmt == Fmt::Tnd && (0..=d.cell.unwrap_or(0)).all(|k| pal[cells[k].fg as usize] == [0, 0, 0]) => "|black_before_first_fg_command",
             "fg" | "bg" | "char" | "blink" | "glyph" if m.fmt == Fmt::Xb => {
                 if m.compress {
                     "|compressed"
@@ -328,10 +352,44 @@ fn roundtrip(m: &Model, orig: &Buffer, a: &Buffer) -> Result<(), (String, String
 
 // ------------------------------------------------------------------------------------------------ clause (3): re-save stability
 
-fn resave(fmt: Fmt, a: &Buffer, opts: &icy_engine::SaveOptions, class: &str) -> Result<(), (String, String)> {
+/// Input classes of a loaded buffer that are known to select distinct writer paths. `.0` = suffix for the key,
+/// `.1` = the class folds all symptoms into one key (the stream loses sync, symptoms vary)
+fn buffer_class(fmt: Fmt, a: &Buffer, opts: &icy_engine::SaveOptions) -> (&'static str, bool) {
+    let (w, h) = (a.get_width().max(0) as usize, a.get_height().max(0) as usize);
+    let cell = |i: usize| a.get_char(((i % w) as i32, (i / w) as i32));
+    match fmt {
+        Fmt::Xb => {
+            if opts.compress && icy_engine::analyze_font_usage(a).len() > 1 {
+                return ("|2fonts+compressed", false);
+            }
+        }
+        Fmt::Idf => {
+            if opts.compress && w > 0 && lone_marker(w, w * h, |i| cell(i).ch == '\x01' && cell(i).attribute.as_u8(IceMode::Ice) == 0) {
+                return ("|compress+lone_marker_cell", true);
+            }
+        }
+        Fmt::Tnd => {
+            if (0..w * h).any(|i| (1..=6).contains(&(cell(i).ch as u32))) {
+                return ("|ctrl_char", true);
+            }
+        }
+        Fmt::Bin => {
+            if a.ice_mode == IceMode::Unlimited && (0..w * h).any(|i| cell(i).attribute.is_blinking()) {
+                return ("|unlimited+blink", false);
+            }
+        }
+        Fmt::Adf => {}
+    }
+    ("", false)
+}
+
+fn resave(fmt: Fmt, a: &Buffer, opts: &icy_engine::SaveOptions) -> Result<(), (String, String)> {
     let f = fmt.ext();
     let s = match a.to_bytes(f, opts) {
-        Ok(s) => s,
+        Ok(s) => {
+            dump("resaved", &s);
+            s
+        }
         Err(e) => return Err((format!("{f}|resave|save_error|{}", strip_digits(&e.to_string())), format!("a buffer this loader produced cannot be saved: {e}"))),
     };
     let b = match load(fmt, &s) {
@@ -339,8 +397,13 @@ fn resave(fmt: Fmt, a: &Buffer, opts: &icy_engine::SaveOptions, class: &str) -> 
         Err(e) => return Err((format!("{f}|resave|reload_error|{}", strip_digits(&e)), format!("the re-saved file is rejected: {e}"))),
     };
     if let Some(d) = same_picture(a, &b, fmt.embeds_font()) {
+        let (class, fold) = buffer_class(fmt, a, opts);
+        let msg = format!("first load vs load(save(first load)): {}", d.msg);
+        if fold {
+            return Err((format!("{f}|resave{class}"), format!("[{}] {msg}", d.field)));
+        }
         let hc = if d.field == "height" && a.get_height() < 25 && b.get_height() == 25 { "|saved<25_loaded_25" } else { "" };
-        return Err((format!("{f}|resave|{}{hc}{class}", d.field), format!("first load vs load(save(first load)): {}", d.msg)));
+        return Err((format!("{f}|resave|{}{hc}{class}", d.field), msg));
     }
     Ok(())
 }
@@ -359,6 +422,7 @@ fn check_model(m: &Model) -> Verdict {
         Ok(b) => b,
         Err(e) => return Verdict::fail(format!("{f}|save_error|{}", strip_digits(&e.to_string())), format!("representable buffer refused by the writer: {e}")),
     };
+    dump("saved", &bytes);
     if let Err((k, msg)) = refdecode(m, &cells, &bytes) {
         return Verdict::fail(format!("{f}|refdecode|{k}"), msg);
     }
@@ -366,10 +430,10 @@ fn check_model(m: &Model) -> Verdict {
         Ok(a) => a,
         Err(e) => return Verdict::fail(format!("{f}|roundtrip|load_error|{}", strip_digits(&e)), format!("own file rejected: {e}")),
     };
-    if let Err((k, msg)) = roundtrip(m, &orig, &a) {
+    if let Err((k, msg)) = roundtrip(m, &cells, &orig, &a) {
         return Verdict::fail(k, msg);
     }
-    if let Err((k, msg)) = resave(m.fmt, &a, &opts, "") {
+    if let Err((k, msg)) = resave(m.fmt, &a, &opts) {
         return Verdict::fail(k, msg);
     }
     let used = m.used_pages(&cells);
@@ -435,7 +499,7 @@ fn apply(muts: &[Mut], mut f: Vec<u8>, dstart: usize) -> Vec<u8> {
             match zone {
                 0 => pick(pos, n.min(16)),
                 2 => {
-                    let s = dstart.min(n);
+                    let s = dstart.min(n - 1);
                     s + pick(pos, (n - s).min(400))
                 }
                 3 => {
@@ -515,6 +579,21 @@ fn fuzz_cases(base: BoxedStrategy<Model>) -> BoxedStrategy<FuzzCase> {
     (base, muts()).prop_map(|(base, muts)| FuzzCase { base, muts }).boxed()
 }
 
+fn simpler_fuzz(c: &FuzzCase) -> Vec<FuzzCase> {
+    let mut out = Vec::new();
+    if c.muts.len() > 1 {
+        for i in 0..c.muts.len() {
+            let mut m = c.muts.clone();
+            m.remove(i);
+            out.push(FuzzCase { base: c.base.clone(), muts: m });
+        }
+    }
+    for b in model::simpler(&c.base) {
+        out.push(FuzzCase { base: b, muts: c.muts.clone() });
+    }
+    out
+}
+
 fn check_fuzz(c: &FuzzCase) -> Verdict {
     let m = &c.base;
     if let Some(why) = m.out_of_domain() {
@@ -531,6 +610,8 @@ fn check_fuzz(c: &FuzzCase) -> Verdict {
     if file == bytes {
         return Verdict::discard("mutation without effect");
     }
+    dump("base", &bytes);
+    dump("mutated", &file);
     // keep the files inside what the formats are for (IDF: 200 lines; Tundra: no jumps thousands of rows down) —
     // magnitude-driven work and memory are properties C02/C03
     match m.fmt {
@@ -558,7 +639,7 @@ fn check_fuzz(c: &FuzzCase) -> Verdict {
         opts.save_sauce = true;
     }
     let changed = same_picture(&orig, &a, false).is_some();
-    if let Err((k, msg)) = resave(m.fmt, &a, &opts, "") {
+    if let Err((k, msg)) = resave(m.fmt, &a, &opts) {
         return Verdict::fail(k, msg);
     }
     Verdict::pass(changed, if changed { "accepted,picture_changed" } else { "accepted,picture_as_base" })
@@ -585,18 +666,20 @@ fn main() {
 
     let q = 6_000;
     let t = 150_000;
-    eng.generated(PartCfg::new("xb", q, t), || model::xb_models(false), check_model);
-    eng.generated(PartCfg::new("bin", q, t), || model::bin_models(false), check_model);
-    eng.generated(PartCfg::new("adf", q, t), || model::adf_models(false), check_model);
-    eng.generated(PartCfg::new("idf", q, t), || model::idf_models(false), check_model);
-    eng.generated(PartCfg::new("tnd", q, t), || model::tnd_models(false), check_model);
+    let cls = |m: &Model| m.fmt.ext().to_string();
+    eng.generated_min(PartCfg::new("xb", q, t), || model::xb_models(false), check_model, cls, model::simpler);
+    eng.generated_min(PartCfg::new("bin", q, t), || model::bin_models(false), check_model, cls, model::simpler);
+    eng.generated_min(PartCfg::new("adf", q, t), || model::adf_models(false), check_model, cls, model::simpler);
+    eng.generated_min(PartCfg::new("idf", q, t), || model::idf_models(false), check_model, cls, model::simpler);
+    eng.generated_min(PartCfg::new("tnd", q, t), || model::tnd_models(false), check_model, cls, model::simpler);
 
     let fq = 5_000;
     let ft = 250_000;
-    eng.generated(PartCfg::new("xb_fuzz", fq, ft), || fuzz_cases(model::xb_models(true)), check_fuzz);
-    eng.generated(PartCfg::new("bin_fuzz", fq, ft), || fuzz_cases(model::bin_models(true)), check_fuzz);
-    eng.generated(PartCfg::new("adf_fuzz", fq, ft), || fuzz_cases(model::adf_models(true)), check_fuzz);
-    eng.generated(PartCfg::new("idf_fuzz", fq, ft), || fuzz_cases(model::idf_models(true)), check_fuzz);
-    eng.generated(PartCfg::new("tnd_fuzz", fq, ft), || fuzz_cases(model::tnd_models(true)), check_fuzz);
+    let fcls = |c: &FuzzCase| c.base.fmt.ext().to_string();
+    eng.generated_min(PartCfg::new("xb_fuzz", fq, ft), || fuzz_cases(model::xb_models(true)), check_fuzz, fcls, simpler_fuzz);
+    eng.generated_min(PartCfg::new("bin_fuzz", fq, ft), || fuzz_cases(model::bin_models(true)), check_fuzz, fcls, simpler_fuzz);
+    eng.generated_min(PartCfg::new("adf_fuzz", fq, ft), || fuzz_cases(model::adf_models(true)), check_fuzz, fcls, simpler_fuzz);
+    eng.generated_min(PartCfg::new("idf_fuzz", fq, ft), || fuzz_cases(model::idf_models(true)), check_fuzz, fcls, simpler_fuzz);
+    eng.generated_min(PartCfg::new("tnd_fuzz", fq, ft), || fuzz_cases(model::tnd_models(true)), check_fuzz, fcls, simpler_fuzz);
     eng.run();
 }
